@@ -11,6 +11,7 @@ mod c17;
 mod c18;
 mod c19;
 mod c20;
+mod drive;
 mod he;
 mod project;
 mod psets;
@@ -70,6 +71,8 @@ fn main() {
             }
             out_line(&json!({"done": true}));
         }
+        // hcv he-drive <config.json> <seed> <programs> <length>
+        "he-drive" => drive::main(&args[2..]),
         "c07" => c07::main(&args[2..]),
         "c08" => c08::main(&args[2..]),
         "c17" => c17::main(&args[2..]),
